@@ -115,10 +115,51 @@ Scan2(l, i) ==
 
 Inline2(l) == Process(Scan2(l, 1), 1)
 
+
+(* ---- inline links (spec section 6.5 and the procedure "look for link or image"), alphabet a [ ] ( ) * --------------
+   `[` pushes a bracket opener; `]` pops the nearest opener: if it is active and an inline destination `(dest)` follows
+   directly (parentheses inside the destination balanced, the closing one present), the nodes since the opener become the
+   link text (emphasis is processed inside it), every earlier opener is deactivated (links do not nest) and scanning
+   continues after the `)`; otherwise the `]` is literal.  Emphasis for the rest is processed at the end. *)
+RECURSIVE DestEnd(_, _, _)
+DestEnd(l, i, depth) ==
+  IF i > Len(l) THEN 0
+  ELSE IF l[i] = "(" THEN DestEnd(l, i + 1, depth + 1)
+  ELSE IF l[i] = ")" THEN (IF depth = 0 THEN i ELSE DestEnd(l, i + 1, depth - 1))
+  ELSE DestEnd(l, i + 1, depth)
+IsPunct3(c) == c \in {"*", "[", "]", "(", ")"}
+DelimNode3(l, i, j) ==
+  LET prev == IF i = 1 THEN "" ELSE l[i - 1]
+      next == IF j = Len(l) THEN "" ELSE l[j + 1]
+      lf == ~IsWs(next) /\ (~IsPunct3(next) \/ IsWs(prev) \/ IsPunct3(prev))
+      rf == ~IsWs(prev) /\ (~IsPunct3(prev) \/ IsWs(next) \/ IsPunct3(next))
+  IN [t |-> "delim", ch |-> "*", n |-> j - i + 1, orig |-> j - i + 1, co |-> lf, cc |-> rf, s |-> <<>>, tag |-> ""]
+LinkOpen(dest) == [t |-> "open", ch |-> "", n |-> 0, orig |-> 0, co |-> FALSE, cc |-> FALSE, s |-> dest, tag |-> "a"]
+RECURSIVE Scan3(_, _, _, _)
+Scan3(l, i, out, stack) ==
+  IF i > Len(l) THEN Process(out, 1)
+  ELSE IF l[i] = "[" THEN Scan3(l, i + 1, Append(out, TextNode(<<"[">>)), Append(stack, [pos |-> Len(out) + 1, active |-> TRUE]))
+  ELSE IF l[i] = "]" THEN
+    IF stack = <<>> THEN Scan3(l, i + 1, Append(out, TextNode(<<"]">>)), stack)
+    ELSE LET top == stack[Len(stack)]
+             rest == SubSeq(stack, 1, Len(stack) - 1)
+             close == IF i < Len(l) /\ l[i + 1] = "(" THEN DestEnd(l, i + 2, 0) ELSE 0 IN
+         IF ~top.active \/ close = 0 THEN Scan3(l, i + 1, Append(out, TextNode(<<"]">>)), rest)
+         ELSE LET inner == Process(SubSeq(out, top.pos + 1, Len(out)), 1)
+                  out2 == SubSeq(out, 1, top.pos - 1) \o <<LinkOpen(SubSeq(l, i + 2, close - 1))>> \o [k \in 1..Len(inner) |-> Dead(inner[k])]
+                          \o <<TagNode("close", "a")>> IN
+              Scan3(l, close + 1, out2, [k \in 1..Len(rest) |-> [rest[k] EXCEPT !.active = FALSE]])
+  ELSE IF l[i] = "*" THEN LET j == RunEnd(l, i, "*") IN Scan3(l, j + 1, Append(out, DelimNode3(l, i, j)), stack)
+  ELSE Scan3(l, i + 1, Append(out, TextNode(<<l[i]>>)), stack)
+Inline3(l) == Scan3(l, 1, <<>>, <<>>)
+EncChar(c) == IF c = "[" THEN "%5B" ELSE IF c = "]" THEN "%5D" ELSE c
+
 Piece(nd) ==
   CASE nd.t = "text" -> nd.s
     [] nd.t = "code" -> <<"<code>">> \o nd.s \o <<"</code>">>
     [] nd.t = "delim" -> Repeat(nd.ch, nd.n)
+    [] nd.t = "open" /\ nd.tag = "a" -> <<"<a href=\"">> \o [k \in 1..Len(nd.s) |-> EncChar(nd.s[k])] \o <<"\">">>
+    [] nd.t = "close" /\ nd.tag = "a" -> <<"</a>">>
     [] nd.t = "open" -> <<IF nd.tag = "em" THEN "<em>" ELSE "<strong>">>
     [] nd.t = "close" -> <<IF nd.tag = "em" THEN "</em>" ELSE "</strong>">>
 RECURSIVE Render(_)
